@@ -189,13 +189,22 @@ K("C11/spec/idempotent", ["C11"], BD + "c11_normalise_idempotent_and_valid", [],
 # C01 legality decision
 # ---------------------------------------------------------------------------------------------
 LG = "legal::verif_kani::"
+ISLEGAL = []
 for _s, _k in KINDS:
     for _c in ("w", "b"):
         K("C01/legal/is-legal/%s/%s" % (_k, _c), ["C01", "C02", "C07", "C09"], LG + "c01_is_legal_%s_%s" % (_s, _c),
+          ["legal::Checker::new", "legal::Checker::is_legal", "legal::Checker::is_attacked", "legal::NilPrechecker::is_legal_pre", "Move::is_legal_unchecked"],
+          "for all well-formed boards (side %s, one king each, consistent mark, normalised rights) x all pseudo-legal moves of kind %s: Move::is_legal_unchecked (Checker without prefilter) == (mover's king not attacked in ref_apply(position, move))" % (_c, _k),
+          assumes=TABLES + ["C15/pawns/advances", "C16/check-queries", "C06/semilegal/%s/%s" % (_k, _c)], timeout=3600, mem_gb=16)
+        K("C01/legal/is-legal-prefilter/%s/%s" % (_k, _c), ["C01", "C02", "C07", "C09"], LG + "c01_is_legal_pre_%s_%s" % (_s, _c),
           ["legal::Checker::new", "legal::Checker::is_legal", "legal::Checker::is_attacked", "legal::DefaultPrechecker::new", "legal::DefaultPrechecker::pinned",
-           "legal::DefaultPrechecker::bishop_xray", "legal::DefaultPrechecker::rook_xray", "legal::DefaultPrechecker::is_legal_pre", "Move::is_legal_unchecked", "Move::validate"],
-          "for all well-formed boards (side %s, one king each, consistent mark, normalised rights) x all pseudo-legal moves of kind %s: is_legal with NilPrechecker == is_legal with DefaultPrechecker == validate().is_ok() == (mover's king not attacked in ref_apply(position, move))" % (_c, _k),
-          assumes=TABLES + ["C15/between/all-pairs", "C15/pawns/advances", "C16/check-queries", "C06/semilegal/%s/%s" % (_k, _c)], timeout=2400, mem_gb=16)
+           "legal::DefaultPrechecker::bishop_xray", "legal::DefaultPrechecker::rook_xray", "legal::DefaultPrechecker::is_legal_pre"],
+          "the same with the pin / check prefilter (DefaultPrechecker: the decision used by the legal generators, has_legal_moves and SAN): == (mover's king not attacked in ref_apply(position, move)), side %s, kind %s" % (_c, _k),
+          assumes=TABLES + ["C15/between/all-pairs", "C15/pawns/advances", "C16/check-queries", "C06/semilegal/%s/%s" % (_k, _c)], timeout=3600, mem_gb=16)
+        ISLEGAL += ["C01/legal/is-legal/%s/%s" % (_k, _c), "C01/legal/is-legal-prefilter/%s/%s" % (_k, _c)]
+K("C01/validate-glue", ["C01", "C02", "C09", "C10"], MB + "c01_validate_glue", ["Move::validate", "Move::semi_validate"],
+  "with is_semilegal and is_legal_unchecked imported as free booleans: semi_validate is Ok iff semilegal (else NotSemiLegal); validate is Err(NotSemiLegal) if not semilegal, else Ok iff legal, else Err(NotLegal)",
+  assumes=ISLEGAL)
 
 # ---------------------------------------------------------------------------------------------
 # Layer V: move chains (C13, C14) - extracted verbatim, verified by Verus
@@ -302,7 +311,7 @@ for _g in ("knight", "king", "bishop", "rook", "queen", "pawn_simple", "pawn_cap
 
 K("C07/legal-filter", ["C07", "C01", "C09"], MG + "c07_legal_filter_forwards_iff_is_legal", ["movegen::LegalFilter::new", "movegen::LegalFilter::push", "movegen::ErrOnFirst::push"],
   "for all boards with one king each and any move: LegalFilter::push forwards the move to the inner sink exactly when Checker<DefaultPrechecker>::is_legal holds and returns the inner sink's answer; ErrOnFirst refuses every push",
-  assumes=["C01/legal/is-legal/%s/%s" % (_k, _c) for _s, _k in KINDS for _c in ("w", "b")])
+  assumes=ISLEGAL)
 
 V("C01/gen/dispatch", ["C01", "C06", "C07"], "movegen.vspec",
   ["movegen::MoveGenImpl::gen", "movegen::MoveGenImpl::gen_brq", "movegen::MoveGenImpl::gen_for_has_legal_moves", "movegen::MoveGenImpl::gen_all", "movegen::MoveGenImpl::gen_capture",
@@ -319,7 +328,6 @@ V("C17/walker/verus", ["C17", "C04"], "walker.vspec",
 # C09 SAN
 # ---------------------------------------------------------------------------------------------
 SN = "moves::san::verif_kani::"
-ISLEGAL = ["C01/legal/is-legal/%s/%s" % (_k, _c) for _s, _k in KINDS for _c in ("w", "b")]
 for _c in ("w", "b"):
     K("C09/candidates/pieces/%s" % _c, ["C09", "C19"], MG + "c09_san_candidates_%s" % _c, ["movegen::MoveGenImpl::san_candidates"],
       "for all well-formed boards (side %s, <= 16 men), every non-pawn piece kind and destination, and an arbitrary witness move w: san_candidates pushes w exactly once iff w is a pseudo-legal simple move of that piece to that destination" % _c,
